@@ -130,6 +130,9 @@ func RunCheck(opts CheckOpts) int {
 	if opts.Tier == "thorough" {
 		timeout, needTwo = 120, true
 	}
+	if t := os.Getenv("GOVC_TIMEOUT"); t != "" {
+		fmt.Sscanf(t, "%d", &timeout)
+	}
 	workDirRoot = filepath.Join(opts.VerifDir, ".work", fmt.Sprintf("%d", os.Getpid()))
 	os.MkdirAll(workDirRoot, 0o755)
 	if !opts.KeepSMT {
